@@ -1029,10 +1029,15 @@ func (c *wsConn) handleWsConn(ctx context.Context) {
 			action = "pong"
 			vhook("main.pong", c)
 
-			// c.conn is replaced by the reconnect goroutine under writeLk
-			c.writeLk.Lock()
-			c.resetReadDeadline()
-			c.writeLk.Unlock()
+			// c.conn is replaced by the reconnect goroutine under writeLk. Without a
+			// timeout there is no deadline to renew, and waiting for the lock — held
+			// by a writer for as long as its write takes — would keep this loop from
+			// noticing the end of the connection.
+			if c.timeout > 0 {
+				c.writeLk.Lock()
+				c.resetReadDeadline()
+				c.writeLk.Unlock()
+			}
 		case <-timeoutCh:
 			if c.pingInterval == 0 {
 				// pings not running, this is perfectly normal
